@@ -43,6 +43,9 @@ KEYS = [
     ("db.name", "str"),
     ("db.pool_size", "i64"),
     ("db.timeout_ms", "u64"),
+    # keys whose names start like `PX_PROFILE`, the variable that selects the profile and is not a key: ordinary keys
+    ("profile_dir", "str"),
+    ("profiler.rate", "u32"),
     # list-valued keys: defined in the *files* only (never in the environment). A list is a value like any
     # other: the highest-precedence source that defines the key provides the whole list, element for element.
     ("tags", "list_str"),
@@ -294,6 +297,9 @@ def materialise(case, root):
         env["PX_PROFILE"] = case["unknown_profile"]
     else:
         raise AssertionError(pm)
+    if case["idx"] % 2 == 1:
+        # `.profile(..)` before `.configuration_dir(..)`: the builder calls commute
+        env["CFGLOAD_PROFILE_FIRST"] = "1"
     if case["noise"]:
         # variables that are *not* `PX_`-prefixed must not count as configuration
         for k, v in case["noise"].items():
